@@ -2285,23 +2285,24 @@ class Fn(
         found_unselected = False
 
         for addr, value in x.items():
-            is_selected, subselection = selection.match(addr)
-            if is_selected:
-                if isinstance(value, dict) and subselection is not None:
-                    # Recursively filter nested choices
-                    selected_sub, unselected_sub = self.filter(value, subselection)
-                    if selected_sub is not None:
-                        selected[addr] = selected_sub
-                        found_selected = True
-                    if unselected_sub is not None:
-                        unselected[addr] = unselected_sub
-                        found_unselected = True
-                else:
-                    # Include the entire value in selected
-                    selected[addr] = value
+            # The remaining selection decides what happens below `addr`, also
+            # when `addr` itself does not match (e.g. under a complement), so
+            # thread it down exactly as `regenerate` does.
+            _, subselection = selection.match(addr)
+            if isinstance(value, dict):
+                # Recursively filter nested choices
+                selected_sub, unselected_sub = self.filter(value, subselection)
+                if selected_sub is not None:
+                    selected[addr] = selected_sub
                     found_selected = True
+                if unselected_sub is not None:
+                    unselected[addr] = unselected_sub
+                    found_unselected = True
+            elif () in subselection:
+                # Leaf choice: same test as `Distribution.regenerate`.
+                selected[addr] = value
+                found_selected = True
             else:
-                # Include the entire value in unselected
                 unselected[addr] = value
                 found_unselected = True
 
